@@ -39,12 +39,17 @@ type flvTag struct {
 
 // genTags draws 1-2 tags: the first with a small symbolic body or a boundary-size body, the
 // second (if any) with a small symbolic body.
-func genTags() []flvTag {
+func genTags(muxOnly bool) []flvTag {
 	small := 3
 	big := []int{255, 256, 65535, 65536}
 	if vTier() == 1 {
 		small = 8
-		big = []int{255, 256, 65524, 65525, 65535, 65536, 65537, 131071, 1<<24 - 1}
+		big = []int{255, 256, 65524, 65525, 65535, 65536, 65537, 131071, 1 << 20}
+		if muxOnly {
+			// the 24-bit size limit itself (the demuxing harnesses stop at 2^20: reading 16 MiB back
+			// through bytes.Buffer exceeds the engine's allocation bound)
+			big = append(big, 1<<24-1)
+		}
 	}
 	k := 1 + vChoice(2)
 	tags := make([]flvTag, k)
@@ -108,7 +113,7 @@ func flvSegmentation(file []byte, tags []flvTag) *segReader {
 // HarnessC09_Mux: the muxer's bytes are exactly the FLV v1 layout.
 func HarnessC09_Mux() {
 	hv, ha := vBool(), vBool()
-	tags := genTags()
+	tags := genTags(true)
 	w := &sinkWriter{failAt: -1}
 	m, _ := NewMuxer(w)
 	err := m.WriteHeader(hv, ha)
@@ -158,7 +163,7 @@ func demuxAll(r *segReader, tags []flvTag, hv, ha bool) {
 // HarnessC09_RoundTrip: muxer output is demuxed to the same tags under every segmentation.
 func HarnessC09_RoundTrip() {
 	hv, ha := vBool(), vBool()
-	tags := genTags()
+	tags := genTags(false)
 	w := &sinkWriter{failAt: -1}
 	m, _ := NewMuxer(w)
 	if m.WriteHeader(hv, ha) != nil {
@@ -176,7 +181,7 @@ func HarnessC09_RoundTrip() {
 // HarnessC09_RefDemux: files produced by the independent writer are demuxed to the same tags.
 func HarnessC09_RefDemux() {
 	hv, ha := vBool(), vBool()
-	tags := genTags()
+	tags := genTags(false)
 	file := refFLVHeader(hv, ha)
 	for _, t := range tags {
 		file = append(file, refFLVTag(t.tt, t.ts, t.body)...)
